@@ -1,5 +1,29 @@
-#ifdef SPEC_HARNESS
 #define NONAN2(v) ((v).x == (v).x && (v).y == (v).y)
+#ifdef SPEC_CONTRACTS
+double stub_YAtX(struct linalg_vec_double_2 *l, struct linalg_vec_double_2 *r, double x) { return nondet_double(); } /* interpolation: floating point, not reached */
+#endif
+#ifdef SPEC_HARNESS
+/* C11: "constructing from arbitrary contours fills exactly the points of positive winding (or odd
+ * winding for EvenOdd), and Boolean results contain exactly the points given by the set formula":
+ * with operands regularized to winding {0,1}, A+B is w>0, A^B is w>1 (both), A-B feeds B negated
+ * and uses the Add rule */
+void h_IsInside(void) {
+  long w = nondet_long();
+  __CPROVER_assert(IsInside(0 /*Add*/, w) == (w > 0), "Add: positive winding is inside");
+  __CPROVER_assert(IsInside(1 /*Intersect*/, w) == (w > 1), "Intersect: inside both regularized operands");
+  __CPROVER_assert(IsInside(2 /*EvenOdd*/, w) == ((w & 1) != 0), "EvenOdd: odd winding, negative windings included");
+  int a = nondet_int(), b = nondet_int();
+  __CPROVER_assume((a == 0 || a == 1) && (b == 0 || b == 1));
+  __CPROVER_assert(IsInside(0, (long)a + b) == (a || b), "union of regularized operands");
+  __CPROVER_assert(IsInside(1, (long)a + b) == (a && b), "intersection of regularized operands");
+  __CPROVER_assert(IsInside(0, (long)a - b) == (a && !b), "difference: second operand enters with negative multiplicity under the Add rule");
+  /* OnInterior, vertical branch (exact): strictly between the endpoints of a vertical segment */
+  struct linalg_vec_double_2 v, p, q;
+  __CPROVER_assume(NONAN2(v) && NONAN2(p) && NONAN2(q) && p.x == q.x && p.y < q.y);
+  __CPROVER_assert(OnInterior(&v, &p, &q) == (v.x == p.x && p.y < v.y && v.y < q.y), "vertex on the interior of a vertical edge: exact, endpoints excluded");
+  __CPROVER_assert(OnInterior(&v, &p, &q) == OnInterior(&v, &q, &p), "edge direction does not matter");
+  HARNESS_END;
+}
 static struct LexLess lexless_obj;
 #define LL(x, y) LexLess_call(&lexless_obj, &(x), &(y))
 void h_LexLess_order(void) {
